@@ -80,6 +80,21 @@ KINDS = {
                                           "required": ["kind", "value", "extra"]},
                                          {"type": "object", "properties": {"kind": {"type": "string", "enum": ["none"]}}, "required": ["kind"]}]},
                               [{"kind": "none"}, {"kind": "some", "value": None, "extra": 1}], [{"kind": "some", "extra": 1}], False),
+    "enum_ext_tuple": ({"oneOf": [{"type": "object", "properties": {"T": {"type": "array", "items": [INT, STR], "minItems": 2, "maxItems": 2}}, "required": ["T"],
+                                   "additionalProperties": False}, {"type": "string", "enum": ["U"]}]},
+                       [{"T": [1, "a"]}, "U"], [{"T": [1]}, {"T": ["a", 1]}], False),
+    "enum_adj_tuple": ({"oneOf": [{"type": "object", "properties": {"t": {"type": "string", "enum": ["A"]}, "c": {"type": "array", "items": [INT, STR], "minItems": 2, "maxItems": 2}},
+                                   "required": ["t", "c"]},
+                                  {"type": "object", "properties": {"t": {"type": "string", "enum": ["S"]}, "c": {"type": "object", "properties": {"x": INT}, "required": ["x"]}},
+                                   "required": ["t", "c"]},
+                                  {"type": "object", "properties": {"t": {"type": "string", "enum": ["U"]}}, "required": ["t"]}]},
+                       [{"t": "A", "c": [1, "a"]}, {"t": "S", "c": {"x": 1}}, {"t": "U"}], [{"t": "A", "c": [1]}, {"t": "S", "c": {}}, {"t": "Z"}], False),
+    "enum_unt_struct": ({"oneOf": [{"type": "object", "properties": {"p": STR}, "required": ["p"], "additionalProperties": False},
+                                   {"type": "array", "items": [INT, STR], "minItems": 2, "maxItems": 2}, {"type": "null"}]},
+                        [{"p": "s"}, [1, "a"], None], [{"p": 1}, [1], 5], False),
+    "deny_list": ({"type": "string", "not": {"enum": ["bad", "worse"]}}, ["ok", ""], ["bad", 1], False),
+    "str_pattern": ({"type": "string", "pattern": "^[a-z]+$"}, ["abc"], ["ABC", ""], False),
+    "str_minmax": ({"type": "string", "minLength": 2, "maxLength": 3}, ["ab", "éé"], ["a", "abcd"], False),
     "enum_ext": (ref("Ext"), ["U", {"N": 1}, {"S": {"x": 1}}], ["Z", {"N": "s"}], False),
     "enum_int": (ref("Int"), [{"t": "A", "x": 1}, {"t": "B"}, {"t": "A", "x": 1, "y": "s"}], [{"t": "Z"}, {"t": "A"}], False),
     "enum_adj": (ref("Adj"), [{"t": "A", "c": 1}, {"t": "B", "c": "s"}], [{"t": "A", "c": "s"}], False),
@@ -92,7 +107,8 @@ KINDS = {
     "date": ({"type": "string", "format": "date"}, ["2020-02-29"], [], True),
 }
 QUICK_KINDS = ["bool", "u8", "i64", "nz32", "f64", "string", "str_max2", "str_enum", "opt_scalar", "opt_struct", "vec", "set", "map_int", "map_any",
-               "tuple1", "tuple2", "struct", "struct_req_nullable", "struct_nested_defaults", "struct_inline_defaults", "enum_inline_defaults", "struct_flat", "enum_ext", "enum_int", "typed_enum", "boxed", "unit", "uuid"]
+               "tuple1", "tuple2", "struct", "struct_req_nullable", "struct_nested_defaults", "struct_inline_defaults", "enum_inline_defaults", "struct_flat", "enum_ext", "enum_int", "enum_adj", "enum_unt", "enum_ext_tuple", "enum_adj_tuple", "enum_unt_struct", "deny_list", "str_pattern",
+               "typed_enum", "boxed", "unit", "uuid"]
 
 
 def with_default(schema, d):
